@@ -274,7 +274,7 @@ func (im *storeImpl) execCrash(w []string) string {
 // ---------------------------------------------------------------- generator
 
 // crashPoints emits the crash ops for every point of the last op on g.
-func genCrashPoints(r *rng, im *storeImpl, g *genSess, seqs string, o *out, do func(string) string) {
+func genCrashPoints(r *rng, im *storeImpl, g *storeSessGen, seqs string, o *out, do func(string) string) {
 	tr := im.crash.traces[g.sid]
 	if tr == nil {
 		return
@@ -325,15 +325,15 @@ func genCrash(r *rng, tier string, idx int, o *out, do func(string) string) stri
 	nOps := r.rangeInt(6, 30)
 	nSess := 1 + r.intn(2)
 	used := map[string]bool{}
-	var gs []*genSess
+	var gs []*storeSessGen
 	for i := 0; i < nSess; i++ {
-		gs = append(gs, &genSess{sid: genSid(r, used), s: 1, t: 1})
+		gs = append(gs, &storeSessGen{sid: genSid(r, used), s: 1, t: 1})
 	}
 	saved := map[string][]int{}
 	o.kind("kind." + kind)
 	opened := 0
 	shape := kind
-	explore := func(g *genSess, name string) {
+	explore := func(g *storeSessGen, name string) {
 		// probe the most recent saves (the in-flight one is the last) and one older one
 		sv := saved[g.sid]
 		var qs []string
@@ -412,7 +412,7 @@ func genCrash(r *rng, tier string, idx int, o *out, do func(string) string) stri
 
 func genCrashSQL(r *rng, o *out, do func(string) string) string {
 	used := map[string]bool{}
-	g := &genSess{sid: genSid(r, used), s: 1, t: 1}
+	g := &storeSessGen{sid: genSid(r, used), s: 1, t: 1}
 	o.kind("kind.sql")
 	parseCtr(do("open sql "+g.sid), g)
 	shape := "sql"
